@@ -2,7 +2,8 @@
 import json
 import random
 
-from . import c01, common, gen_prog
+from . import c01, common, gen_prog, mutants
+from . import gen_types as T
 from .common import Failure
 
 PROP_MODULES = ["GarbleVerif.Props.C17"]
@@ -192,6 +193,77 @@ def mutate(rng, p, rule, stmt, top):
     return DEFS + head + (top + "\n" if top else "") + sep + sig + brace + ret + " {\n    " + "\n    ".join(out)
 
 
+def model_oracle_phase(ctx, n_bases):
+    """mutants judged by the model: every program check.rs accepts must be typed by `Bit.progTyped` on the tree
+    check.rs built for it (for programs inside the modelled language)"""
+    fs = []
+    cases = []
+    for i in range(n_bases):
+        seed = ctx.rng.randrange(1 << 48)
+        feats = mutants.FEATS[i % len(mutants.FEATS)]
+        base = c01.gen_case(seed, 0, 0, features=feats, depth=3)
+        cases.append({"id": len(cases), "kind": "base", "src": base["src"], "seed": seed})
+        m = mutants.swap_mutant(seed, feats)
+        if m:
+            cases.append({"id": len(cases), "kind": "type-swap", "src": m["src"], "seed": seed, "how": m["swapped"]})
+        r2 = random.Random(seed ^ 0xabcdef)
+        for _ in range(3):
+            k, src = mutants.text_mutant(r2, base["src"])
+            if src:
+                cases.append({"id": len(cases), "kind": k, "src": src, "seed": seed})
+    impl = common.run_lines_guarded(common.GVH, [{"id": c["id"], "op": "typed_ast", "src": c["src"]} for c in cases], per_case_timeout=20.0)
+    judged = [c for c in cases if "prog" in (impl.get(c["id"]) or {})]
+    mod, _, _ = ctx.run_model([{"id": c["id"], "op": "bit_check", "prog": impl[c["id"]]["prog"]} for c in judged], timeout=3000)
+    tally = {}
+    suspects = []
+    for c in cases:
+        r = impl.get(c["id"]) or {}
+        o = "hang" if r.get("hang") else ("died" if "died" in r else r.get("outcome", "?").split("@")[0])
+        sub = {"op": "typed_ast", "src": c["src"], "kind": c["kind"], "seed": c["seed"], "how": c.get("how")}
+        if o in ("panic", "hang", "died"):
+            fs.append(Failure("oracle", f"c17:model-oracle:{o}:{c['kind']}", f"a mutated program makes the front end {o}: {str(r.get('outcome'))[:200]}", sub, "accepted or rejected", r))
+            continue
+        outside = "outside" in r or bool(set(r.get("uses") or []) & mutants.OUTSIDE_MODEL)
+        m = mod.get(c["id"]) or {}
+        verdict = "outside-model" if (o == "ok" and outside) else ("typed" if m.get("typed") else ("ill" if "typed" in m else "-"))
+        key = f"{'base' if c['kind'] == 'base' else 'mutant'}: check.rs={o} model={verdict}"
+        tally[key] = tally.get(key, 0) + 1
+        tally["kind:" + c["kind"]] = tally.get("kind:" + c["kind"], 0) + 1
+        if c["kind"] == "base":
+            if o != "ok":
+                fs.append(Failure("oracle", "c17:model-oracle:base-rejected", f"a generated well-typed program is rejected ({o})", sub, "ok", r))
+            elif verdict not in ("typed", "outside-model"):
+                fs.append(Failure("model", "c17:model-oracle:base-not-typed", "the compiler model does not type the tree check.rs built for a generated program of the fragment", sub, "typed", m))
+            continue
+        if o == "ok" and verdict == "ill":
+            suspects.append((c, r, m))
+    # for the accepted programs the model rejects: look for an input on which the source semantics get stuck
+    reqs = []
+    for c, r, m in suspects:
+        main = next((f for f in r["prog"]["fns"] if f["name"] == "main"), None)
+        if main:
+            try:
+                args = [[T.rand_value(ctx.rng, t, 0.4) for _, t in main["params"]] for _ in range(6)]
+                reqs.append({"id": c["id"], "op": "src_eval", "prog": r["prog"], "fn": "main",
+                             "inputs": [[gen_prog.val_json(t, v) for (_, t), v in zip(main["params"], a)] for a in args]})
+            except Exception:
+                pass
+    ev = ctx.run_model(reqs, timeout=3000)[0] if reqs else {}
+    for c, r, m in suspects:
+        sub = {"op": "typed_ast", "src": c["src"], "kind": c["kind"], "seed": c["seed"], "how": c.get("how")}
+        stuck = None
+        q = next((x for x in reqs if x["id"] == c["id"]), None)
+        for inp, res in zip((q or {}).get("inputs", []), (ev.get(c["id"]) or {}).get("results", [])):
+            if "stuck" in res:
+                stuck = {"input": inp, "stuck": res["stuck"]}
+                break
+        fs.append(Failure("oracle", f"c17:model-oracle:accepted-ill-typed:{c['kind']}",
+                          f"check.rs accepts a program ({c['kind']} mutant{', ' + ' -> '.join(c['how']) if c.get('how') else ''}) that the typing judgement of the compiler model "
+                          f"rejects in function(s) {m.get('ill')}" + (f"; the source semantics get stuck ({stuck['stuck']}) on input {json.dumps(stuck['input'])[:200]}" if stuck else ""),
+                          sub, "type error", {"outcome": "accepted", "ill": m.get("ill"), "stuck_on": stuck}))
+    return fs, tally, len(cases)
+
+
 def run(ctx):
     quick = ctx.tier == "quick"
     ctx.audit(PROP_MODULES)
@@ -234,12 +306,14 @@ def run(ctx):
             failures.append(Failure("oracle", f"c17:{o}:{c['rule']}:{c['stmt'][:50]}", f"an ill-typed program ({c['stmt']}) makes the front end {o}: {r.get('outcome', '')[:200]}", sub, "type error", r))
         elif o in ("scan", "parse"):
             failures.append(Failure("model", f"c17:mutant-not-parsed:{c['stmt'][:50]}", f"the mutant does not parse ({c['stmt']})", sub, "type error", o))
+    mfs, mtally, n_oracle = model_oracle_phase(ctx, 150 if quick else 4000)
+    failures += mfs
     seen, uniq = set(), []
     for f in failures:
         if f.signature not in seen:
             seen.add(f.signature); uniq.append(f)
     coverage = {
-        "evaluations": len(cases),
+        "evaluations": len(cases) + n_oracle,
         "distinct_nontrivial": sum(v.get("type", 0) for k, v in by_rule.items() if k != "control"),
         "rule": f"{n_bases} generated well-typed programs; into each, at a random top-level position of main, a fixed prelude of "
                 f"typed bindings plus ONE statement that breaks one static rule is inserted ({len(STATEMENTS)} statements: operand / "
@@ -248,8 +322,14 @@ def run(ctx):
                 f"for, non-exhaustive matches, loops over non-arrays) or one top-level item ({len(TOPLEVEL)}: direct / mutual "
                 f"recursion, unused private functions, pub fn without parameters, wrong return types, duplicate parameters, unknown "
                 f"types, mistyped constants). Every mutant must be rejected with a type error; the prelude alone must be accepted. "
-                f"non-trivial = mutants rejected with a type error",
-        "distribution": {"outcomes": outcomes, "by_rule": by_rule},
+                f"non-trivial = mutants rejected with a type error. Second stream (model as the oracle): programs of the modelled "
+                f"fragment (12 feature mixes) and, per program, one type-swap mutant (one expression site generated with another "
+                f"type than its context asks for) and three token mutants (an identifier replaced by another identifier of the "
+                f"program or an unbound one, a number's suffix, a type annotation, a binary operator, a tuple index, a cast target, a "
+                f"dropped `mut`); every text check.rs accepts is translated from check.rs' own typed tree (harness op typed_ast) and "
+                f"must be typed by Bit.progTyped (theorem C01_core_defined: such a program never gets stuck); accepted programs "
+                f"that use for-join or multiplication by a negative literal are outside that model and only counted",
+        "distribution": {"outcomes": outcomes, "by_rule": by_rule, "model_oracle": mtally},
         "samples": [{"src": cases[1]["src"][:600]}],
     }
-    return common.finish(ctx, uniq, coverage, ["one violation per program; violations are drawn from a fixed list of statement shapes"], "proof", search=None)
+    return common.finish(ctx, uniq, coverage, ["first stream: one violation per program, drawn from a fixed list of statement shapes; second stream: single-token and single-site mutants of programs of the modelled fragment"], "proof", search=None)
